@@ -276,12 +276,12 @@ impl Display for Expr {
             fmt.write_str(&function.to_string())?;
             fmt.write_char('(')?;
             if let Some(ref left) = self.left {
-                fmt.write_str(&left.to_string())?;
+                Self::fmt_argument(left, fmt)?;
             }
             if let Some(ref args) = self.args {
                 for arg in args {
                     fmt.write_str(", ")?;
-                    fmt.write_str(&arg.to_string())?;
+                    Self::fmt_argument(arg, fmt)?;
                 }
             }
             fmt.write_char(')')?;
@@ -324,8 +324,34 @@ impl Display for Expr {
 impl Expr {
     /// Operands that are themselves binary expressions are bracketed, so that two different
     /// expressions never share one textual form (it is used as a key for per-row values).
+    /// A text literal inside a larger expression is written in quotes: `length('Size')` is not
+    /// `length(size)`, `concat('a, b')` is not `concat('a', 'b')` (the text is a key for per-row values).
+    fn fmt_argument(argument: &Expr, fmt: &mut Formatter) -> fmt::Result {
+        use std::fmt::Write;
+
+        match argument.val {
+            Some(ref val)
+                if argument.left.is_none()
+                    && argument.function.is_none()
+                    && val.parse::<f64>().is_err() =>
+            {
+                if argument.minus {
+                    fmt.write_char('-')?;
+                }
+                fmt.write_char('\'')?;
+                fmt.write_str(val)?;
+                fmt.write_char('\'')
+            }
+            _ => fmt.write_str(&argument.to_string()),
+        }
+    }
+
     fn fmt_operand(operand: &Expr, fmt: &mut Formatter) -> fmt::Result {
         use std::fmt::Write;
+
+        if operand.val.is_some() {
+            return Self::fmt_argument(operand, fmt);
+        }
 
         if operand.function.is_none() && operand.right.is_some() {
             fmt.write_char('(')?;
